@@ -13,6 +13,18 @@ const (
 	ArrayMaxDimension = 0x10000000
 )
 
+// CheckDimension returns the argument as an int if it is a fixnum that can
+// be the size of a sequence or a dimension of an array, zero up to
+// ArrayMaxDimension. A type-error is raised otherwise so a negative or
+// absurd size never reaches the allocator.
+func CheckDimension(s *Scope, depth int, use string, arg Object) int {
+	num, ok := arg.(Fixnum)
+	if !ok || num < 0 || ArrayMaxDimension < num {
+		TypePanic(s, depth, use, arg, fmt.Sprintf("non-negative fixnum not more than %d", ArrayMaxDimension))
+	}
+	return int(num)
+}
+
 // Array is an n dimensional collection of Objects.
 type Array struct {
 	dims        []int
